@@ -1,54 +1,226 @@
 """C13 — ALF export writes consistent object tables that load back to the same spikes (DESIGN.md §5 C13)."""
 import numpy as np
+from pathlib import Path
 from . import common as C
 from . import dense_common as DC
 from . import merge_common as M
 from . import alf_common as A
+from . import dataset as D
+from fractions import Fraction
 
 PID = 'C13'
 PARALLEL = True
 BATCH = 60
 BUDGET_S = {'quick': 90, 'thorough': 1500}
 RULE = ('dense datasets with/without raw data, features, curated clusters (ids with gaps, empty ids), probe table, '
-        'KSLabel file, (n,1)-shaped vectors, temp_wh.dat; labels empty or not; unit factors 1 and 2.5; ids below '
-        '65536; plus datasets merged from 2..3 probes. One case = one real EphysAlfCreator.convert() followed by a '
-        'fresh load_model of the output. non-trivial = every case')
-ASSUMPTIONS = ['uuid4 identifiers are opaque tokens assumed distinct', 'np.save/np.load are transport',
+        'KSLabel file, optional channel_labels / cluster_shanks / drift files, (n,1)-shaped vectors, temp_wh.dat; labels '
+        'empty or not; unit factors 1 and 2.5; ids below 65536; plus datasets merged from 2..3 probes. One case = one real '
+        'EphysAlfCreator.convert() followed by a fresh load_model of the output; the SAME source (view of the loaded '
+        'model + listing of the source directory) goes to the Lean model convertFS, which computes both directories '
+        'afterwards. non-trivial = every case')
+ASSUMPTIONS = ['uuid4 identifiers: the generator is a parameter of the model, its contract (distinct outputs) a hypothesis of '
+               'export_uuids; distinctness is DECIDED on the real file by the Lean executable (uuidOKb)',
+               'np.save/np.load are transport',
                'for a multi-probe (merged) source the reloaded channel map is the per-probe re-expression of C14; equality of '
                'channel maps is claimed for single-probe sources only',
                're-exporting over an output directory that holds an older export (stale cluster/template tables) is exercised '
                'without a label only: with a label the second renaming pass re-labels the files of the older export, and '
-               'pre-existing output files are outside the quantifier of the property']
+               'pre-existing output files are outside the quantifier of the property',
+               'spikes.times is compared EXACTLY with the model rational samples/rate rounded once (one IEEE division of two '
+               'exactly represented numbers); |sample| < 2^53']
 FAMILIES = ('spikes', 'clusters', 'templates', 'channels')
+SUBSET = ('_phy_spikes_subset.spikes.npy', '_phy_spikes_subset.channels.npy', '_phy_spikes_subset.waveforms.npy')
+
+
+def _run_twice(case):
+    """ONE EphysAlfCreator converts the same loaded model several times (case['twice'] = [(label, ampfactor), ...]);
+    the last output directory is compared, object file by object file, with the output of a freshly loaded model
+    converted once with the arguments of the last conversion."""
+    from phylib.io.alf import EphysAlfCreator
+    from phylib.io.model import load_model
+    with C.scratch_dir() as d:
+        src = d / 'src'
+        params = D.write_dataset(src, case['spec'])
+        load_model(params).close()
+        runs = [tuple(x) for x in case['twice']]
+        m = load_model(params)
+        try:
+            creator = EphysAlfCreator(m)
+            for k, (label, f) in enumerate(runs):
+                np.random.seed(case.get('rs', 0))
+                m2 = creator.convert(d / ('out%d' % k), label=label, ampfactor=f)
+                if m2 is not None:
+                    m2.close()
+        finally:
+            m.close()
+        label, f = runs[-1]
+        m = load_model(params)
+        try:
+            np.random.seed(case.get('rs', 0))
+            m2 = EphysAlfCreator(m).convert(d / 'ref', label=label, ampfactor=f)
+            if m2 is not None:
+                m2.close()
+        finally:
+            m.close()
+        last, ref = d / ('out%d' % (len(runs) - 1)), d / 'ref'
+        names = sorted(p.name for p in ref.iterdir() if p.name.split('.')[0] in FAMILIES)
+        diff = [n for n in sorted(p.name for p in last.iterdir() if p.name.split('.')[0] in FAMILIES) if n not in names]
+        for n in names:
+            if not (last / n).exists():
+                diff.append(n)
+            elif n.endswith('.npy'):
+                a, b = np.load(last / n), np.load(ref / n)
+                if a.dtype != b.dtype or a.shape != b.shape or not np.array_equal(a, b, equal_nan=a.dtype.kind == 'f'):
+                    diff.append(n)
+        return dict(twice_diff=diff, n_files=len(names))
 
 
 def impl(case):
-    return A.run_export(case)
+    if case.get('twice'):
+        return _run_twice(case)
+    return _impl_once(case)
+
+
+def _impl_once(case):
+    """One real conversion (alf_common.run_export). The three listings run_export takes of the source directory
+    (before, after the refused same-directory attempts, after the conversion) are recorded here, the first one together
+    with the first dimensions of the source arrays: this is the source directory the Lean model starts from."""
+    rec = []
+    orig = A._hash_dir
+
+    def recording(d):
+        h = orig(d)
+        entry = dict(hashes=h)
+        if not rec:
+            meta = {}
+            for p in sorted(Path(d).iterdir()):
+                if p.is_file() and p.suffix == '.npy':
+                    a = np.load(p, mmap_mode='r')
+                    meta[p.name] = dict(shape=list(a.shape))
+                    if p.name in ('spike_clusters.npy', 'spike_templates.npy'):
+                        meta[p.name]['vals'] = [int(x) for x in np.asarray(a).ravel()]
+                    del a
+            entry['npy'] = meta
+        rec.append(entry)
+        return h
+    A._hash_dir = recording
+    try:
+        res = A.run_export(case)
+    finally:
+        A._hash_dir = orig
+    res['listings'] = rec
+    return res
+
+
+def _dir_entries(hashes, npy=None):
+    out = []
+    for name in sorted(hashes):
+        e = dict(name=name, tag=hashes[name][:16])
+        m = (npy or {}).get(name)
+        if m is not None and m['shape']:
+            e['rows'] = m['shape'][0]
+            e['vec2d'] = len(m['shape']) == 2 and m['shape'][1] == 1
+            if 'vals' in m and all(0 <= x for x in m['vals']):
+                e['vals'] = m['vals']
+        out.append(e)
+    return out
+
+
+def has_traces(case):
+    return bool(case.get('spec') and case['spec'].get('raw'))
+
+
+def _ood_query(case):
+    """out-of-domain cases (the real conversion raises, so no source view was observed): the view and a minimal
+    listing of the source directory are rebuilt from the dataset specification — used for the tally only"""
+    sp = case['spec']
+    st = sp['spike_templates']
+    names = ['params.py', 'spike_times.npy', 'spike_templates.npy', 'spike_clusters.npy', 'channel_positions.npy',
+             'templates.npy', 'amplitudes.npy', 'channel_map.npy'] + sorted(sp.get('extra_npy') or {})
+    return dict(op='export', rate=DC.frac(sp['sample_rate']), n_amplitudes=len(st), samples=sp['spike_samples'],
+                sc=sp.get('spike_clusters') or st, st=st, n_templates=len(sp['templates']), channel_map=sp['channel_map'],
+                channel_probes=sp.get('channel_probes') or [0] * sp['n_channels'], features=sp.get('pc_features') is not None,
+                same_dir=False, force=False, label=case.get('label', ''), has_traces=has_traces(case),
+                src=[dict(name=n, tag='x', rows=2) for n in names])
 
 
 def model_query(case, impl_res):
+    if case.get('twice'):
+        return dict(p=PID, op='multi', qs=[])
+    if case.get('ood'):
+        return dict(p=PID, op='multi', qs=[_ood_query(case)])
     if 'ok' not in impl_res:
-        return dict(p=PID, op='convert', n_spikes=1, n_clusters=1, n_templates=1, n_channels=1, label='', same_dir=False)
-    sm = impl_res['ok']['src_model']
-    return dict(p=PID, op='convert', n_spikes=len(sm['spike_samples']), n_clusters=sm['n_clusters'],
-                n_templates=sm['n_templates'], n_channels=sm['n_channels'], label=case.get('label', ''), same_dir=False)
+        return dict(p=PID, op='multi', qs=[])
+    ok = impl_res['ok']
+    sm = ok['src_model']
+    ls = ok['listings']
+    view = dict(rate=DC.frac(sm['sample_rate']), n_amplitudes=len(sm['amplitudes']),
+                sc=sm['spike_clusters'], st=sm['spike_templates'], n_templates=sm['n_templates'],
+                channel_map=sm['channel_mapping'], channel_probes=sm['channel_probes'], features=bool(sm['has_features']))
+    sec = ((case.get('spec') or {}).get('extra_npy') or {}).get('spikes.times.npy')
+    if sec is not None:
+        # the source gives its spike times in SECONDS (spikes.times.npy, no spike_times.npy): the times are an input
+        # of the export, the samples are computed by the model (round half to even of times*rate)
+        view['times_sec'] = [DC.frac(float(x)) for x in sec[1]]
+    else:
+        view['samples'] = sm['spike_samples']
+    src = _dir_entries(ls[0]['hashes'], ls[0].get('npy'))
+    qs = [dict(view, op='export', same_dir=False, force=bool(case.get('reexport')), label=case.get('label', ''),
+               has_traces=has_traces(case), src=src, reexport=bool(case.get('reexport'))),
+          dict(view, op='export', same_dir=True, force=False, label=case.get('label', ''), has_traces=has_traces(case), src=src),
+          dict(op='frame', before=_dir_entries(ls[0]['hashes']), after=_dir_entries(ls[-1]['hashes']))]
+    if ok['uuids'] is not None:
+        qs.append(dict(view, op='uuids', impl_lines=ok['uuids']))
+    return dict(p=PID, op='multi', qs=qs)
+
+
+def _real_dims(ok):
+    have = {}
+    for name in ok['files']:
+        if name in ok['arrays']:
+            sh = ok['arrays'][name]['shape']
+            have[name] = sh[0] if sh else None
+        elif name.split('.')[0] == 'clusters' and name.split('.')[1] == 'uuids':
+            have[name] = len(ok['uuids']) - 1
+        else:
+            have[name] = None
+    return have
 
 
 def judge(case, impl_res, ans):
     if 'err' in ans:
         return 'MACHINERY: driver error %s' % ans['err']
+    if case.get('ood'):
+        return None       # outside the quantifier: tallied only (see tally)
     if 'raised' in impl_res:
         return 'SPEC: ALF conversion raised %s (%s) at %s on an in-domain dataset' % (
             impl_res['raised'], impl_res['msg'], impl_res['where'])
     ok = impl_res['ok']
+    if case.get('twice'):
+        # the conversion is a function of the source (convertFS has no state): converting again with the same
+        # creator must give what a freshly loaded model gives
+        if ok['twice_diff']:
+            return 'SPEC: a repeated conversion of the same model differs from the conversion of a freshly loaded model in %s' % (
+                ok['twice_diff'][:6])
+        return None
     sm = ok['src_model']
     label = case.get('label', '')
-    curated = sm['spike_clusters'] != sm['spike_templates']
-    ncl = (max(sm['spike_clusters']) + 1) if curated else sm['n_templates']
-    counts = dict(spikes=len(sm['spike_samples']), clusters=ncl, templates=sm['n_templates'], channels=sm['n_channels'])
-    if ok['same_dir_refused'] is not True or not ok['src_after_refusal_unchanged']:
+    res = ans['ok']['res']
+    mod, refused, frame = res[0], res[1], res[2]
+    # the model's own output must satisfy its theorems (export_first_dims, export_frame_decided, refusal_frame, export_succeeds)
+    if not mod['rows_ok'] or not mod['frame_ok'] or refused['err'] != 'sameDir' or sorted(map(tuple, refused['src'])) != \
+            sorted((e['name'], e['tag']) for e in _dir_entries(ok['listings'][0]['hashes'])):
+        return 'MACHINERY: the Lean model contradicts its own theorems (rows_ok/frame_ok/refusal)'
+    if mod['err'] is not None:
+        return 'CORR: the model conversion raises %s, the real one returned' % mod['err']
+    counts = mod['counts']              # computed by the Lean model from the source view (sizesOf)
+    # refusal: every spelling of the source directory is refused and the listing afterwards is the one the model
+    # computes for a refused conversion (the unchanged source)
+    if ok['same_dir_refused'] is not True or not ok['src_after_refusal_unchanged'] or \
+            sorted(map(tuple, refused['src'])) != sorted((n, h[:16]) for n, h in ok['listings'][1]['hashes'].items()):
         return 'SPEC: conversion into the source directory was not refused (or changed the source)'
-    # first dimensions and labels of every object file
+    # first dimensions and labels of every object file of the REAL output
+    have = _real_dims(ok)
     for name in ok['files']:
         parts = name.split('.')
         if parts[0] not in FAMILIES:
@@ -58,13 +230,10 @@ def judge(case, impl_res, ans):
             return 'SPEC: label %r is not inserted before the extension of %s' % (label, name)
         if not label and len(parts) != 3:
             return 'SPEC: unexpected file name %s without a label' % name
-        if name.endswith('.npy'):
-            rows = ok['arrays'][name]['shape'][0] if ok['arrays'][name]['shape'] else None
-        else:
-            rows = len(ok['uuids']) - 1 if parts[1] == 'uuids' else None
+        rows = have[name]
         if rows is not None and rows != counts[parts[0]]:
             return 'SPEC: %s has first dimension %s, expected %d (%s)' % (name, rows, counts[parts[0]], parts[0])
-    if ok['uuids'] is None or ok['uuids'][0] != 'uuids' or len(set(ok['uuids'][1:])) != ncl:
+    if ok['uuids'] is None or len(res) < 4 or not res[3]['uuid_ok']:
         return 'SPEC: clusters.uuids does not hold one unique identifier per cluster'
 
     def arr(stem):
@@ -72,8 +241,13 @@ def judge(case, impl_res, ans):
     t, s = arr('spikes.times'), arr('spikes.samples')
     if t is None or s is None or t['vals'] != sm['spike_times'] or s['vals'] != sm['spike_samples']:
         return 'SPEC: spikes.times / spikes.samples are not the source times in seconds / samples'
-    if not all(abs(a - b / sm['sample_rate']) <= 1e-12 * max(1, abs(a)) for a, b in zip(t['vals'], s['vals'])):
-        return 'SPEC: spikes.times is not spikes.samples divided by the sampling rate'
+    # times in seconds: the model's rationals — samples / rate (rounded once) for a source in samples, the source's own
+    # times for a source in seconds, whose samples are round-half-even(times * rate)
+    if max([abs(x) for x in s['vals']] or [0]) < 2 ** 53 and t['vals'] != [DC.to_float(q) for q in mod['times']]:
+        return 'SPEC: spikes.times is not %s' % ('the spike times of the source (given in seconds)' if 'spikes.times.npy' in (
+            (case.get('spec') or {}).get('extra_npy') or {}) else 'spikes.samples divided by the sampling rate')
+    if s['vals'] != mod['samples']:
+        return 'SPEC: spikes.samples is not the samples of the source (round(times*rate) for a source in seconds)'
     # round trip
     for who in ('fresh', 'ret'):
         r = ok.get(who)
@@ -84,20 +258,37 @@ def judge(case, impl_res, ans):
                 return 'SPEC: %s of the %s model differs from the source' % (key, 'returned' if who == 'ret' else 'reloaded')
         if len(set(sm['channel_probes'])) == 1 and r['channel_mapping'] != sm['channel_mapping']:
             return 'SPEC: channel map of the %s model differs from the source (single probe)' % who
-    # frame
-    bad = [f for f in ok['src_changed'] if not f.startswith('_phy_spikes_subset.') and f != 'temp_wh.dat']
-    if bad:
-        return 'SPEC: source files changed by the conversion: %s' % bad
-    # correspondence with the model's file table
-    have = {}
-    for name in ok['files']:
-        parts = name.split('.')
-        if parts[0] in FAMILIES:
-            have[name] = (ok['arrays'][name]['shape'][0] if name in ok['arrays'] and ok['arrays'][name]['shape'] else
-                          (len(ok['uuids']) - 1 if parts[1] == 'uuids' else None))
-    for name, rows in ans['ok']['model']:
+    # frame of the whole conversion, decided by the Lean executable on the two real listings
+    if not frame['frame_ok']:
+        return 'SPEC: source directory not preserved by the conversion: changed/added/removed %s%s' % (
+            [f for f in ok['src_changed'] if f not in SUBSET and f != 'temp_wh.dat'],
+            ', temp_wh.dat not deleted' if 'temp_wh.dat' in ok['listings'][-1]['hashes'] else '')
+    # ---- correspondence: the directories computed by the model against the real ones ----
+    after = ok['listings'][-1]['hashes']
+    msrc = dict((n, tg) for n, tg in mod['src'])
+    if set(msrc) != set(after):
+        return 'CORR: source directory after the conversion: model %s, real %s' % (
+            sorted(set(msrc) - set(after)), sorted(set(after) - set(msrc)))
+    for n, tg in msrc.items():
+        if n not in SUBSET and after[n][:16] != tg:
+            return 'CORR: source file %s: the model says unchanged, the real bytes differ' % n
+    mout = {e['name']: e for e in mod['out']}
+    for name, e in mout.items():
+        if name not in have:
+            return 'CORR: the model writes %s, the real output directory has no such file' % name
+        if have[name] is not None and e['dim'] != have[name] and name.split('.')[0] in FAMILIES:
+            return 'CORR: model expects %s with %d rows, output has %s' % (name, e['dim'], have[name])
+        if e['vals'] is not None and name in ok['arrays'] and ok['arrays'][name]['vals'] != e['vals']:
+            return 'CORR: values of %s differ from the model (%s)' % (name, e['tag'])
+        if name in ok['arrays'] and e['tag'].startswith('u16:') and ok['arrays'][name]['dtype'] != 'uint16':
+            return 'CORR: %s has dtype %s, the model tag is %s' % (name, ok['arrays'][name]['dtype'], e['tag'])
+    for name in have:
+        if name.split('.')[0] in FAMILIES and name not in mout:
+            return 'CORR: the real output holds the object file %s that the model does not write' % name
+    # the file table of Model/C13.lean (theorem export_table_written)
+    for name, rows in mod['table']:
         if have.get(name) != rows:
-            return 'CORR: model expects %s with %d rows, output has %s' % (name, rows, have.get(name))
+            return 'CORR: table expects %s with %d rows, output has %s' % (name, rows, have.get(name))
     return None
 
 
@@ -106,10 +297,25 @@ def nontrivial(case):
 
 
 def tally(rep, case, impl_res, ans):
+    if case.get('twice'):
+        rep.count('same creator converts %d times (labels %s, factors %s)' % (
+            len(case['twice']), [x[0] for x in case['twice']], [x[1] for x in case['twice']]))
+        return
+    if 'spikes.times.npy' in ((case.get('spec') or {}).get('extra_npy') or {}):
+        rep.count('source spike times in seconds (sub-sample precision), rate %s' % case['spec']['sample_rate'])
+    if case.get('ood'):
+        res = (ans.get('ok') or {}).get('res') or []
+        rep.count('out-of-domain %s: real %s, model %s' % (
+            case['ood'], impl_res.get('raised', 'returned'), res[0]['err'] if res else 'not asked'))
+        return
     if case.get('spec') and case['spec']['n_channels'] == 1:
         rep.count('single_channel_dataset')
     if case.get('spec'):
         rep.count('positions_dtype:' + (case['spec'].get('dtypes') or {}).get('channel_positions', 'float64'))
+        opt = sorted(n for n in (case['spec'].get('extra_npy') or {}) if n.split('.')[0] in (
+            'channel_labels', 'cluster_shanks', 'cluster_probes', 'drift', 'drift_depths'))
+        if opt:
+            rep.count('optional source tables: ' + ','.join(opt))
     rep.count('label:%r' % case.get('label', ''))
     if case.get('reexport'):
         rep.count('re-export over a stale output directory')
@@ -126,6 +332,29 @@ def tally(rep, case, impl_res, ans):
 def classify(case, impl_res, ans, why):
     return dict(kind=why.split(':')[0], what=why.split(':')[1].strip()[:40], merged=bool(case.get('probes')),
                 label=bool(case.get('label')), raised=impl_res.get('raised'), where=impl_res.get('where'))
+
+
+def _n_clusters(spec):
+    sc = spec.get('spike_clusters')
+    if sc is None or list(sc) == list(spec['spike_templates']):
+        return len(spec['templates'])
+    return max(sc) + 1
+
+
+def _seconds_layout(spec, i):
+    """Turn the source into one that gives its spike times in SECONDS with sub-sample precision: no spike_times.npy
+    but spikes.times.npy holding (k + f)/rate, f in {.25, .75, 0, .5}; exact .5 ties with a power-of-two rate.
+    Kept only when the float product times*rate rounds (half to even) to the integer the exact product rounds to."""
+    ks = spec['spike_samples']
+    rate = [1024., 32768., spec['sample_rate'], 4096.][(i // 8) % 4]
+    fr = [0.25, 0.75, 0.5, 0.0, 0.5]
+    times = sorted((k + (fr[(j + i) % 5] if j + 1 < len(ks) else 0.25)) / rate for j, k in enumerate(ks))
+    for t in times:
+        if round(Fraction(float(t)) * Fraction(rate)) != int(np.round(np.float64(t) * rate)):
+            return
+    spec['sample_rate'] = rate
+    spec['spike_samples'] = None
+    spec['extra_npy'] = dict(spec.get('extra_npy') or {}, **{'spikes.times.npy': ('float64', [float(t) for t in times])})
 
 
 def gen(tier, rng):
@@ -154,7 +383,35 @@ def gen(tier, rng):
             sc_[0] = big
             sc_[-1] = big - 1
             spec['spike_clusters'] = sc_
+        if i % 9 == 4:
+            # the other optional source tables copy_files renames into object files, and the drift files
+            nc_, ncl_ = spec['n_channels'], _n_clusters(spec)
+            extra = {'channel_labels.npy': ('int32', [k % 3 for k in range(nc_)]),
+                     'cluster_shanks.npy': ('int32', [k % 2 for k in range(ncl_)]),
+                     'drift_depths.um.npy': ('float64', [10., 20.]), 'drift.times.npy': ('float64', [0., 1., 2.]),
+                     'drift.um.npy': ('float64', [[0., 1.], [1., 0.], [2., 2.]])}
+            if i % 18 == 4:
+                extra['cluster_probes.npy'] = ('int32', [0] * ncl_)
+            spec['extra_npy'] = dict(spec.get('extra_npy') or {}, **extra)
+        if i % 8 == 6:
+            _seconds_layout(spec, i)
         # labels incl. ones that occur inside ALF file names or look like extensions
         label = ['', 'probe00', '', 'a', 'raw', '', 'amps', 'npy', 'spikes', 'x.y', 'clusters'][i % 11]
+        if i in (33, 211):
+            # OUTSIDE the quantifier (tallied, never an alarm): a source that already holds an ALF cluster table,
+            # a label with a path separator
+            if i == 33:
+                spec['extra_npy'] = dict(spec.get('extra_npy') or {}, **{'clusters.channels.npy': ('int64', [0] * _n_clusters(spec))})
+                yield dict(p=PID, spec=spec, factor=1, label='', temp_wh=True, rs=i, ood='source with clusters.channels.npy')
+            else:
+                yield dict(p=PID, spec=spec, factor=1, label='a/b', temp_wh=True, rs=i, ood='label a/b')
+            continue
+        if i % 20 == 9:
+            # the same creator / the same loaded model converted two or three times, with a non-identity whitening
+            # matrix, other labels and other unit factors
+            spec2 = DC.dense_spec(rng, raw=(i % 4 == 1), feats=(i % 20 == 9), whiten=rng.pick(['diag', 'tri', 'tri+inv', 'diag+inv']),
+                                  curated=(i % 3 == 0))
+            yield dict(p=PID, spec=spec2, rs=i, twice=[[['', 1], ['probe00', 1]], [['', 1], ['', 2.5]], [['a', 2.5], ['b', 1], ['a', 2.5]]][(i // 7) % 3])
+            continue
         yield dict(p=PID, spec=spec, factor=[1, 2.5][i % 2], label=label, temp_wh=(i % 4 == 0), rs=i,
                    reexport=(i % 5 == 2 and label == ''))
